@@ -674,6 +674,11 @@ def judge_one(ctx, cli, oracle, case, d2, dist, shrinking, m, s, bad, mode):
                 if not shrinking:
                     ctx.offender(sig, "pdsh goes on with a pattern regcomp() refuses: %s" % bad,
                                  shrink(ctx, cli, oracle, case, d2, "spec:" + sig, mode).to_json())
+        elif "malformed-x" in case.tags and ikind == "fatal":
+            # an exclusion word hostlist_create() refuses: stopping with a diagnostic (nobody is contacted) is as
+            # admissible as going on without it — what is NOT admissible is to go on and drop the other exclusions
+            if not shrinking:
+                dist["malformed-x-fatal"] = dist.get("malformed-x-fatal", 0) + 1
         elif (sk, sh) != (ikind, ihosts):
             sig = classify(case, (ikind, ihosts), shosts)
             if "model-vs-impl" in tags:
@@ -907,7 +912,10 @@ def run(ctx):
                    "with each member excluded alone and each member alone surviving all others, duplicates at every "
                    "position, 36 patterns as keep and drop filters, filters hitting every position of a range, host number 0 "
                    "at every position of an exclusion, two-bracket words, exclusion files of 4093..4097 / 8190..8193 bytes, "
-                   "empty pieces, blanks behind the dash; library level: find/delete histories on range records; non-trivial = "
+                   "empty pieces, blanks behind the dash, exclusion words hostlist_create refuses (unbalanced brackets) at "
+                   "every position among well-formed exclusions (the others must still act), several words in ONE -w argument "
+                   "in every order of {target, -exclusion, /re/, -/re/} (the word after a dashed one), arguments holding only "
+                   "filters x $WCOLL read / ignored; library level: find/delete histories on range records; non-trivial = "
                    ">= 3 assembled hosts, >= 1 exclusion or filter that removes at least one "
                    "and keeps at least one host; distinct = distinct option list"}
     dist = {"profiles": {}}
